@@ -142,6 +142,7 @@ type Run struct {
 	Stats     Stats
 	Violations []Violation
 	Witnesses []Witness
+	Probes    []Witness // out-of-model paths: inputs so far, to be probed natively
 	witSeen   int
 	WitCap    int
 	rng       *rand.Rand
@@ -159,6 +160,9 @@ type Run struct {
 	perHarnessPaths map[string]int
 	Start     time.Time
 	interps   []*Interp
+	FailFast  int
+	nUnknownViol int
+	firstViol time.Time
 	Deadline  time.Time
 	TimedOut  bool
 }
@@ -872,6 +876,19 @@ func (r *Run) recordViolation(v *Violation) bool {
 	if n < 3 {
 		r.Violations = append(r.Violations, *v)
 	}
+	// fail fast: once enough distinct unexplained candidates exist, stop
+	// exploring (the run will be FAIL or inconclusive, never PASS)
+	cfg := r.Configs[cfgKey(v.Harness, v.Params)]
+	if (cfg == nil || !cfg.ExpectViolation) && r.FailFast > 0 {
+		r.nUnknownViol++
+		if r.firstViol.IsZero() {
+			r.firstViol = time.Now()
+		}
+		if (r.nUnknownViol >= r.FailFast || time.Since(r.firstViol) > 90*time.Second) && !r.stop {
+			r.stop = true
+			r.UnknownMsgs["exploration stopped early after many violation candidates"]++
+		}
+	}
 	return false
 }
 
@@ -969,6 +986,9 @@ func (ip *Interp) RunJob(job *Job) {
 	case outcome == "oom":
 		r.Stats.OOM++
 		r.OOMMsgs[msg]++
+		if len(r.Probes) < 32 && !cfg.ExpectViolation {
+			r.Probes = append(r.Probes, wit)
+		}
 	case outcome == "budget":
 		r.Stats.BudgetEnds++
 		if !cfg.BudgetIsViolation {
@@ -986,6 +1006,10 @@ func (ip *Interp) RunJob(job *Job) {
 		} else if k := r.rng.Intn(r.witSeen); k < r.WitCap {
 			r.Witnesses[k] = wit
 		}
+	}
+	if r.FailFast > 0 && !r.firstViol.IsZero() && time.Since(r.firstViol) > 90*time.Second && !r.stop {
+		r.stop = true
+		r.UnknownMsgs["exploration stopped 90 s after the first violation candidate"]++
 	}
 	if r.MaxPaths > 0 && r.Stats.Paths >= r.MaxPaths {
 		r.stop = true
@@ -1067,7 +1091,12 @@ func (r *Run) Debug() string {
 		if p == nil {
 			continue
 		}
-		fmt.Fprintf(&sb, "  w%d: %s%v steps=%d pc=%d insolver=%v at %s\n", i, p.Job.Harness, p.Job.Params, p.Steps, len(p.PC), ip.sv.busy, ip.Where())
+		fn := ip.curFn
+		name := "?"
+		if fn != nil {
+			name = fn.String()
+		}
+		fmt.Fprintf(&sb, "  w%d: %s%v steps=%d pc=%d insolver=%v in %s\n", i, p.Job.Harness, p.Job.Params, p.Steps, len(p.PC), ip.sv.busy, name)
 	}
 	return sb.String()
 }
